@@ -56,7 +56,7 @@ LEVEL_NOTE = "trusted: vf/models/httpref.py request parser, the scripted server 
 NSHARDS = {"quick": 8, "thorough": 16}
 PEAK_COUNTERS = ("max_rounds_used",)
 TIMEOUT_S = {"quick": 240, "thorough": 1500}
-BUDGET_S = {"quick": 30, "thorough": 420}
+BUDGET_S = {"quick": 25, "thorough": 400}
 REQUIRE = {"requests_arrived": 800, "arrival_order_checks": 800, "rx_events_checked_against_outstanding_response": 800,
            "responses_entries_checked": 500, "redirect_histories_checked": 60, "downgrade_cases": 8,
            "rounds_with_response_pending_and_more_requests_queued": 200, "healthy_progress_checks": 100}
@@ -145,7 +145,7 @@ def cases(tier, seed, shard, nshards):
                 yield {"kind": "reconnect", "tls": False, "reconnectable": True, "reqs": reqs}
             i += 1
     rng = random.Random(f"{seed}:C19:{shard}")
-    nrand = (1200 if tier == "quick" else 20000) // nshards
+    nrand = (720 if tier == "quick" else 20000) // nshards
     for c in range(nrand):
         r = rng.random()
         tls = r < 0.14
@@ -645,6 +645,9 @@ def _drive(case, ctx, w, servers, client, tymist):
             hdrs = rq.get("headers") or {}
             got_id = hdrs.get("X-Id") if hasattr(hdrs, "get") else None
             w.entry_ids.append(got_id)
+            if "reply" not in rq:
+                # extra (not sent) keys of the queued request dict are gone from entry['request'] (seen after redirects)
+                ctx.count("entry_request_lost_extra_keys_observed")
             if i >= len(ids):
                 w.viol("more-responses-than-requests", f"entry #{i} (request id {got_id}) but only {len(ids)} requests were queued")
                 return False
